@@ -61,10 +61,12 @@ fn read_stats(e: &Arc<dyn reactive_mutiny::stream_executor::StreamExecutorStats 
 }
 
 /// runs one Uni with the given executor kind over `items`; returns the observations
-async fn run_uni<const INSTR: usize>(variant: &str, timeout: bool, limit: u32, items: &[u32], close_after: usize, log_events: bool) -> Obs {
+async fn run_uni<const INSTR: usize, const MS: usize>(variant: &str, timeout: bool, limit: u32, items: &[u32], close_after: usize, log_events: bool) -> Obs {
     let obs = Arc::new(Mutex::new(Obs::default()));
-    let inflight = Arc::new(AtomicI32::new(0));
-    let maxin = Arc::new(AtomicI32::new(0));
+    // one (in progress, maximum in progress) gauge per consumer stream: the concurrency limit is per stream executor
+    let gauges: Arc<Mutex<Vec<(Arc<AtomicI32>, Arc<AtomicI32>)>>> = Arc::new(Mutex::new(vec![]));
+    let new_gauge = { let g = gauges.clone(); move || { let p = (Arc::new(AtomicI32::new(0)), Arc::new(AtomicI32::new(0))); g.lock().unwrap().push(p.clone()); p } };
+    let totals = Arc::new(Mutex::new((0u32, 0u32, 0u32)));
     let on_err_count = Arc::new(AtomicU32::new(0));
     let to = if timeout { Duration::from_millis(TIMEOUT_MS) } else { Duration::ZERO };
     macro_rules! drive { ($uni:expr) => {{
@@ -84,37 +86,46 @@ async fn run_uni<const INSTR: usize>(variant: &str, timeout: bool, limit: u32, i
         assert!(ok, "close() answered false with an unbounded timeout");
         // everything still running gets the time to finish (observations after this point only)
         tokio::time::sleep(Duration::from_millis(10 * TIMEOUT_MS)).await;
+        // the counters of ALL the consumers of this Uni (the close callback only sees the executor that finished last)
+        {
+            use reactive_mutiny::stream_executor::StreamExecutorStats;
+            let mut t = totals.lock().unwrap();
+            for e in uni.stream_executors.iter().take(MS) {
+                t.0 += e.ok_events_avg_future_duration().probe().0; t.1 += e.failed_events_avg_future_duration().probe().0; t.2 += e.timed_out_events_avg_future_duration().probe().0;
+            }
+        }
     }}}
     let (o2, e2) = (obs.clone(), on_err_count.clone());
     match variant {
         "futfallible" => {
-            let (i2, m2) = (inflight.clone(), maxin.clone());
-            drive!(UniMoveFullSync::<u32, 64, 1, INSTR>::new("x").spawn_executors(limit, to,
-                move |stream| { let (i2, m2) = (i2.clone(), m2.clone()); stream.map(move |v| { if log_events { ev(format!("call 0 yielded {v}")); } item_future(v, i2.clone(), m2.clone(), log_events) }) },
+            let ng = new_gauge.clone();
+            drive!(UniMoveFullSync::<u32, 64, MS, INSTR>::new("x").spawn_executors(limit, to,
+                move |stream| { let (i2, m2) = ng(); stream.map(move |v| { if log_events { ev(format!("call 0 yielded {v}")); } item_future(v, i2.clone(), m2.clone(), log_events) }) },
                 move |_err| { let e2 = e2.clone(); async move { e2.fetch_add(1, SeqCst); } },
                 move |e| { let o2 = o2.clone(); async move { if log_events { ev("call 0 callback".into()); } read_stats(&e, &o2); } }));
         }
         "fut" => {
-            let (i2, m2) = (inflight.clone(), maxin.clone());
-            drive!(UniMoveFullSync::<u32, 64, 1, INSTR>::new("x").spawn_futures_executors(limit, to,
-                move |stream| { let (i2, m2) = (i2.clone(), m2.clone()); stream.map(move |v| { if log_events { ev(format!("call 0 yielded {v}")); } let f = item_future(v, i2.clone(), m2.clone(), log_events); async move { f.await.unwrap_or(0) } }) },
+            let ng = new_gauge.clone();
+            drive!(UniMoveFullSync::<u32, 64, MS, INSTR>::new("x").spawn_futures_executors(limit, to,
+                move |stream| { let (i2, m2) = ng(); stream.map(move |v| { if log_events { ev(format!("call 0 yielded {v}")); } let f = item_future(v, i2.clone(), m2.clone(), log_events); async move { f.await.unwrap_or(0) } }) },
                 move |e| { let o2 = o2.clone(); async move { if log_events { ev("call 0 callback".into()); } read_stats(&e, &o2); } }));
         }
         "fallible" => {
-            drive!(UniMoveFullSync::<u32, 64, 1, INSTR>::new("x").spawn_fallibles_executors(limit,
+            drive!(UniMoveFullSync::<u32, 64, MS, INSTR>::new("x").spawn_fallibles_executors(limit,
                 move |stream| stream.map(move |v| { if log_events { ev(format!("call 0 yielded {v}")); } if code(v) == 1 { Err::<u32, DynErr>(format!("item {v} failed").into()) } else { Ok(v) } }),
                 move |_err| { e2.fetch_add(1, SeqCst); },
                 move |e| { let o2 = o2.clone(); async move { if log_events { ev("call 0 callback".into()); } read_stats(&e, &o2); } }));
         }
         _ => {
-            drive!(UniMoveFullSync::<u32, 64, 1, INSTR>::new("x").spawn_non_futures_non_fallibles_executors(limit,
+            drive!(UniMoveFullSync::<u32, 64, MS, INSTR>::new("x").spawn_non_futures_non_fallibles_executors(limit,
                 move |stream| stream.map(move |v| { if log_events { ev(format!("call 0 yielded {v}")); } v }),
                 move |e| { let o2 = o2.clone(); async move { if log_events { ev("call 0 callback".into()); } read_stats(&e, &o2); } }));
         }
     }
     let mut g = std::mem::take(&mut *obs.lock().unwrap());
     g.on_err = on_err_count.load(SeqCst);
-    g.max_inflight = maxin.load(SeqCst);
+    g.max_inflight = gauges.lock().unwrap().iter().map(|p| p.1.load(SeqCst)).max().unwrap_or(0);
+    if MS > 1 { let t = totals.lock().unwrap(); g.ok = t.0; g.failed = t.1; g.timed_out = t.2; }
     g
 }
 
@@ -247,6 +258,7 @@ fn main() {
     if sub == "mcancel" {
         for i in 0..runs {
             let seed = if a.kv.contains_key("seedx") { a.num("seedx", 0) } else { seed0.wrapping_mul(1_000_003).wrapping_add(i) };
+            mark_run(seed);
             let rt = runtime(multi);
             let (trace, viol) = rt.block_on(run_mcancel(seed));
             drop(rt);
@@ -264,6 +276,7 @@ fn main() {
         const KINDS: [&str; 5] = ["arc_atomic", "arc_fullsync", "arc_crossbeam", "ogre_atomic", "ogre_fullsync"];
         for i in 0..runs {
             let seed = if a.kv.contains_key("seedx") { a.num("seedx", 0) } else { seed0.wrapping_mul(1_000_003).wrapping_add(i) };
+            mark_run(seed);
             let mut rng = Rng::new(seed ^ 0x3C);
             let kind = KINDS[rng.below(5) as usize];
             let nl = rng.range(2, 3) as usize;
@@ -303,6 +316,7 @@ fn main() {
     if sub == "transition" {
         for i in 0..runs {
             let seed = if a.kv.contains_key("seedx") { a.num("seedx", 0) } else { seed0.wrapping_mul(1_000_003).wrapping_add(i) };
+            mark_run(seed);
             let mut rng = Rng::new(seed ^ 0x7A);
             let (sequential, limit, n_old, n_new, slow) = (rng.chance(2, 3), rng.range(1, 3) as u32, rng.range(0, 4) as u32, rng.range(0, 4) as u32, rng.chance(1, 2));
             let rt = runtime(multi);
@@ -335,6 +349,7 @@ fn main() {
     }
     for i in 0..runs {
         let seed = if a.kv.contains_key("seedx") { a.num("seedx", 0) } else { seed0.wrapping_mul(1_000_003).wrapping_add(i) };
+        mark_run(seed);
         let mut rng = Rng::new(seed ^ 0xE4EC);
         let variant = VARIANTS[rng.below(4) as usize];
         let timeout = matches!(variant, "futfallible" | "fut") && rng.chance(1, 2);
@@ -348,14 +363,23 @@ fn main() {
         LOG.lock().unwrap().clear();
         let rt = runtime(multi);
         let log_events = sub == "close";
+        // `account`: Unis with 1, 2 or 4 consumer streams (each stream has its own executor, the limit applies to each)
+        let ms = if sub == "account" { [1usize, 1, 2, 4][rng.below(4) as usize] } else { 1 };
         let o = rt.block_on(async {
-            match instr { 0 => run_uni::<METRICS>(variant, timeout, limit, &items, usize::MAX, log_events).await,
-                          1 => run_uni::<LOGMETRICS>(variant, timeout, limit, &items, usize::MAX, log_events).await,
-                          _ => run_uni::<NONE>(variant, timeout, limit, &items, usize::MAX, log_events).await }
+            match (instr, ms) {
+                (0, 1) => run_uni::<METRICS, 1>(variant, timeout, limit, &items, usize::MAX, log_events).await,
+                (0, 2) => run_uni::<METRICS, 2>(variant, timeout, limit, &items, usize::MAX, log_events).await,
+                (0, _) => run_uni::<METRICS, 4>(variant, timeout, limit, &items, usize::MAX, log_events).await,
+                (1, 1) => run_uni::<LOGMETRICS, 1>(variant, timeout, limit, &items, usize::MAX, log_events).await,
+                (1, 2) => run_uni::<LOGMETRICS, 2>(variant, timeout, limit, &items, usize::MAX, log_events).await,
+                (1, _) => run_uni::<LOGMETRICS, 4>(variant, timeout, limit, &items, usize::MAX, log_events).await,
+                (_, 1) => run_uni::<NONE, 1>(variant, timeout, limit, &items, usize::MAX, log_events).await,
+                (_, 2) => run_uni::<NONE, 2>(variant, timeout, limit, &items, usize::MAX, log_events).await,
+                (_, _) => run_uni::<NONE, 4>(variant, timeout, limit, &items, usize::MAX, log_events).await }
         });
         drop(rt);
         let letters: String = items.iter().map(|v| ['o', 'e', 's', 'x'][code(*v) as usize]).collect();
-        let cfgkey = format!("{variant}/to{}/l{limit}/i{instr}", timeout as u8);
+        let cfgkey = format!("{variant}/to{}/l{limit}/i{instr}/ms{ms}", timeout as u8);
         let mut viol: Vec<(String, String)> = vec![];
         let mut trace: Vec<String> = vec![];
         let metrics = instr != 2;
@@ -366,7 +390,7 @@ fn main() {
             if metrics && (o.ok + o.failed + o.timed_out) as usize != items.len() { viol.push(("items_not_accounted".into(), format!("{variant} timeout={timeout} limit={limit}: {} items ({letters}) but ok {} + failed {} + timed out {}", items.len(), o.ok, o.failed, o.timed_out))); }
             let has_on_err = matches!(variant, "futfallible" | "fallible");
             if has_on_err && metrics && o.on_err != o.failed { viol.push(("error_callback_count".into(), format!("{variant}: error callback ran {} times for {} failed items ({letters})", o.on_err, o.failed))); }
-            if matches!(variant, "futfallible" | "fut") && o.max_inflight > limit as i32 { viol.push(("limit_exceeded".into(), format!("{variant}: {} item futures in progress at once with concurrency_limit={limit}", o.max_inflight))); }
+            if matches!(variant, "futfallible" | "fut") && o.max_inflight > limit as i32 { viol.push(("limit_exceeded".into(), format!("{variant} (Uni with {ms} consumer streams): one consumer had {} item futures in progress at once with concurrency_limit={limit}", o.max_inflight))); }
             if o.callbacks != 1 { viol.push(("close_callback_count".into(), format!("{variant}: the close callback ran {} times", o.callbacks))); }
         } else {
             trace = LOG.lock().unwrap().clone();
